@@ -1453,7 +1453,14 @@ func (ro *RedisOutput) bisyncStartPoint(ctx context.Context, runIDs []string) (S
 		frontier, err := checkpoint.RebuildBisyncFrontier(snapshot, records)
 		bisyncFrontierRebuildGauge.Set(time.Since(begin).Seconds(), ro.cfg.InputName)
 		if err != nil {
-			return sp, 0, false, err
+			if !errors.Is(err, checkpoint.ErrBisyncJournalGap) {
+				return sp, 0, false, err
+			}
+			// Lanes commit out of order: a crash can leave e.g. only unit 3 in the journal
+			// of a fresh namespace. Nothing contiguous can be resumed from the journal, so
+			// fall back to the root checkpoint (earlier units are replayed again).
+			ro.logger.Warnf("bisync startpoint parallel journal gap: checkpoint(%s), err(%v)", checkpointName, err)
+			frontier = nil
 		}
 		if frontier != nil && frontier.UnitSeq > 0 {
 			ro.clearBisyncFrontierMiss(rootStartPoint.RunId)
